@@ -327,3 +327,250 @@ def mon_recount(rec, P, info, params):
     if s.pipelines_all.completion_count != (s.pipelines_query.completion_count + s.pipelines_interactive.completion_count
                                             + s.pipelines_batch.completion_count):
         P("C06:partition", "per-priority completions do not add up to the total")
+
+
+# ----------------------------------------------------------------------------- scheduler round monitors
+
+def _ready(states, pm, i, allowed=("pending",)):
+    return states[i] in allowed and all(states[q] == "completed" for q in pm.get(i, []))
+
+
+def _first_assignment_rounds(rec):
+    first = {}
+    for tr in rec.ticks:
+        for a in tr.asg:
+            for (pid, i) in a.ops:
+                first.setdefault(pid, tr.t)
+    return first
+
+
+def _fifo(rec, P, tag, same_class_only):
+    """pipelines get their first container in arrival order: a pipeline is never served in an earlier round than an
+    older one (of the same priority class, if same_class_only)"""
+    first = _first_assignment_rounds(rec)
+    prio = {pid: p.priority.value for pid, p in rec.pipelines.items()}
+    order = rec.arrival_order
+    nrounds = len(rec.ticks)
+    for ai, a in enumerate(order):
+        for b in order[ai + 1:]:
+            if same_class_only and prio[a] != prio[b]:
+                continue
+            if b in first and (a not in first or first[a] > first[b]):
+                P(f"{tag}:fifo", f"{b} (arrived after {a}) got its first container in round {first[b]}, {a} in round {first.get(a)}")
+                return
+
+
+def mon_naive(rec, P, info, multi):
+    parents = parent_map(rec)
+    for tr in rec.ticks:
+        if tr.pre is None or tr.post_sched is None:
+            continue
+        if tr.sus:
+            P("C17:suspension", f"tick {tr.t}: naive issued suspensions {tr.sus}")
+        per_pool = {}
+        for a in tr.asg:
+            per_pool.setdefault(a.pool, []).append(a)
+        for pool, asgs in per_pool.items():
+            if len(asgs) > 1:
+                P("C17:two-containers-one-pool", f"tick {tr.t}: {len(asgs)} assignments for pool {pool} in one round")
+            a = asgs[0]
+            pp = tr.pre.pools[pool]
+            if a.cpu != pp.free_cpu or a.ram != pp.free_ram:
+                P("C17:not-whole-pool", f"tick {tr.t}: pool {pool} had {pp.free_cpu} CPUs / {pp.free_ram} GB free, container got {a.cpu} / {a.ram}")
+        for a in tr.asg:
+            pids = {pid for pid, _ in a.ops}
+            for pid in pids:
+                if "failed" in tr.pre.states.get(pid, []):
+                    P("C17:assigned-after-failure", f"tick {tr.t}: work of {pid} assigned although it has a failed operator ({tr.pre.states[pid]})")
+            if not multi:
+                if len(a.ops) != 1:
+                    P("C17:single-op-mode", f"tick {tr.t}: {len(a.ops)} operators in one container")
+                else:
+                    pid, i = a.ops[0]
+                    if not _ready(tr.pre.states[pid], parents[pid], i, ASSIGNABLE):
+                        P("C17:operator-not-ready", f"tick {tr.t}: {pid} operator {i} assigned while not ready ({tr.pre.states[pid]})")
+            if len(tr.asg) >= 1 and len(tr.pre.pools) >= 2:
+                info["multi_pool_round"] = True
+    _fifo(rec, P, "C17", same_class_only=False)
+
+
+def mon_overbook(rec, P, info):
+    parents = parent_map(rec)
+    failures = {}
+    prev_results = []
+    for tr in rec.ticks:
+        if tr.pre is None or tr.post_sched is None:
+            break
+        for r in prev_results:
+            if r.failed:
+                for pid in {pid for pid, _ in r.ops}:
+                    failures[pid] = failures.get(pid, 0) + 1
+        if tr.sus:
+            P("C18:suspension", f"tick {tr.t}: overbook issued suspensions")
+        taken = [0] * len(tr.pre.pools)
+        for a in tr.asg:
+            pool = tr.pre.pools[a.pool]
+            taken[a.pool] += 1
+            if len(a.ops) != 1:
+                P("C18:not-one-operator", f"tick {tr.t}: {len(a.ops)} operators in one container")
+                continue
+            pid, i = a.ops[0]
+            if not _ready(tr.pre.states[pid], parents[pid], i, ASSIGNABLE):
+                P("C18:operator-not-ready", f"tick {tr.t}: {pid} operator {i} assigned while not ready ({tr.pre.states[pid]})")
+            if a.cpu != 1:
+                P("C18:not-one-cpu", f"tick {tr.t}: container with {a.cpu} CPUs")
+            if a.ram != pool.cap_ram:
+                P("C18:ram-not-pool-capacity", f"tick {tr.t}: memory limit {a.ram}, pool capacity {pool.cap_ram}")
+            if failures.get(pid, 0) >= 3:
+                P("C18:assigned-after-abandon", f"tick {tr.t}: {pid} assigned again after {failures[pid]} of its containers had failed")
+        triggered = bool(tr.arrivals) or bool(prev_results)
+        if triggered:
+            free = [tr.pre.pools[k].free_cpu - taken[k] for k in range(len(taken))]
+            if any(f >= 1 for f in free):
+                for pid, states in tr.post_sched.states.items():
+                    if failures.get(pid, 0) >= 3:
+                        continue
+                    for i in range(len(states)):
+                        if _ready(states, parents[pid], i, ASSIGNABLE):
+                            P("C18:ready-operator-waits-beside-free-cpu", f"tick {tr.t}: {pid} operator {i} ({states[i]}) is ready, free CPUs per pool {free}")
+                            break
+            if any(tr.pre.pools[k].free_cpu - taken[k] == 0 and taken[k] > 0 for k in range(len(taken))):
+                info["round_filled_pool"] = True
+        prev_results = tr.results or []
+        if tr.post_exec is not None:
+            for k, pool in enumerate(tr.post_exec.pools):
+                if len(pool.active) + len(pool.suspending) > pool.cap_cpu:
+                    P("C18:more-containers-than-cpus", f"tick {tr.t}: pool {k} runs {len(pool.active)} containers on {pool.cap_cpu} CPUs")
+    info["abandoned"] = sum(1 for v in failures.values() if v >= 3)
+
+
+def mon_priority_pool(rec, P, info):
+    """C16: pool separation, no suspensions, retry shape and abandonment."""
+    prio = {pid: p.priority.value for pid, p in rec.pipelines.items()}
+    expect_set = {}     # op -> frozenset of ops that must be retried together
+    abandoned = {}      # op -> description
+    fail_pools = set()
+    for tr in rec.ticks:
+        if tr.sus:
+            P("C16:suspension", f"tick {tr.t}: priority-pool issued suspensions {tr.sus}")
+        for a in tr.asg:
+            pids = {pid for pid, _ in a.ops}
+            for pid in pids:
+                want = 0 if prio[pid] in (1, 2) else 1
+                if a.pool != want:
+                    P("C16:wrong-pool", f"tick {tr.t}: container of {pid} (priority {prio[pid]}) on pool {a.pool}")
+                if a.prio != prio[pid]:
+                    P("C16:wrong-priority-label", f"tick {tr.t}: assignment priority {a.prio}, pipeline {pid} priority {prio[pid]}")
+            ops = frozenset(a.ops)
+            for op in a.ops:
+                if op in abandoned:
+                    P("C16:abandoned-retry-assigned", f"tick {tr.t}: {op} assigned again although {abandoned[op]}")
+                if op in expect_set and expect_set[op] != ops:
+                    P("C16:retry-shape", f"tick {tr.t}: retry container holds {sorted(ops)}, the failed container's unfinished operators were {sorted(expect_set[op])}")
+            for op in a.ops:
+                expect_set.pop(op, None)
+        for r in (tr.results or []):
+            if r.failed:
+                fail_pools.add(r.pool)
+                unfinished = frozenset(op for op, st in zip(r.ops, r.states) if st != "completed")
+                pool = tr.post_exec.pools[r.pool] if tr.post_exec else None
+                tot_cpu = pool.cap_cpu if pool else None
+                tot_ram = pool.cap_ram if pool else None
+                for op in unfinished:
+                    expect_set[op] = unfinished
+                if pool and (2 * r.cpu / tot_cpu >= 0.5 or 2 * r.ram / tot_ram >= 0.5):
+                    for op in unfinished:
+                        abandoned[op] = f"its container with {r.cpu} CPUs / {r.ram} GB failed in tick {tr.t} and the doubled request reaches half of the pool ({tot_cpu} CPUs / {tot_ram} GB)"
+    info["fail_pools"] = fail_pools
+    info["abandoned"] = len(abandoned)
+
+
+def mon_priority(rec, P, info, algo, multi):
+    """C12: strict priority, FIFO within a class, work conservation, query-only preemption."""
+    parents = parent_map(rec)
+    prio = {pid: p.priority.value for pid, p in rec.pipelines.items()}
+    for tr in rec.ticks:
+        if tr.pre is None or tr.post_sched is None:
+            continue
+        npools = len(tr.pre.pools)
+        free_cpu = [p.free_cpu for p in tr.pre.pools]
+        free_ram = [p.free_ram for p in tr.pre.pools]
+        for a in tr.asg:
+            if 0 <= a.pool < npools:
+                free_cpu[a.pool] -= a.cpu
+                free_ram[a.pool] -= a.ram
+        post = tr.post_sched.states
+        # ready pending operators left waiting after the round, by class
+        waiting = {1: [], 2: [], 3: []}
+        for pid, states in post.items():
+            for i in range(len(states)):
+                if _ready(states, parents[pid], i):
+                    waiting[prio[pid]].append((pid, i))
+
+        def pools_for(c):
+            if algo == "priority-pool":
+                return [0] if c in (1, 2) else [1]
+            return list(range(npools))
+
+        depleted = lambda k: free_cpu[k] <= 0 or free_ram[k] <= 1e-9
+        # strict priority
+        for a in tr.asg:
+            c = a.prio
+            for hc in (1, 2, 3):
+                if hc >= c or not waiting[hc]:
+                    continue
+                if algo == "priority-pool" and not (set(pools_for(hc)) & set(pools_for(c))):
+                    continue
+                P("C12:priority-inversion", f"tick {tr.t}: a class-{c} container was started while ready pending operators of class {hc} wait: {waiting[hc][:3]}")
+                break
+        # work conservation
+        for c in (1, 2, 3):
+            if waiting[c] and not all(depleted(k) for k in pools_for(c)):
+                P("C12:work-not-conserved", f"tick {tr.t}: ready pending {waiting[c][:3]} (class {c}) left waiting while pools have free CPU {free_cpu} and RAM {free_ram}")
+                break
+        if sum(1 for c in (1, 2, 3) if waiting[c]) >= 2 and any(depleted(k) for k in range(npools)):
+            info["two_classes_waiting_depleted"] = True
+        # preemption
+        if tr.sus:
+            info["suspensions"] = info.get("suspensions", 0) + len(tr.sus)
+            if algo != "priority":
+                P("C12:suspension-by-other-scheduler", f"tick {tr.t}: {algo} suspended {tr.sus}")
+            qwait_ops = 0
+            qwait_pipes = 0
+            for pid, states in post.items():
+                if prio[pid] == 1:
+                    n = sum(1 for x in states if x in ASSIGNABLE)
+                    qwait_ops += n
+                    qwait_pipes += 1 if n else 0
+            if qwait_ops == 0:
+                P("C12:suspension-without-waiting-query", f"tick {tr.t}: {tr.sus} suspended but no query pipeline has an assignable operator")
+            bound = qwait_pipes if multi else qwait_ops
+            if len(tr.sus) > bound > 0:
+                P("C12:too-many-suspensions", f"tick {tr.t}: {len(tr.sus)} suspensions for at most {bound} waiting query job(s)")
+            for cid, pool in tr.sus:
+                cont = None
+                if 0 <= pool < npools:
+                    for c in tr.pre.pools[pool].active:
+                        if c.cid == cid:
+                            cont = c
+                if cont is None:
+                    P("C12:suspended-not-running", f"tick {tr.t}: {cid} is not a running container of pool {pool}")
+                    continue
+                if cont.prio == 1:
+                    P("C12:query-container-suspended", f"tick {tr.t}: query container {cid} suspended")
+                if not cont.can_suspend:
+                    P("C12:suspended-mid-operator", f"tick {tr.t}: {cid} is not at an operator boundary")
+    _fifo(rec, P, "C12", same_class_only=True)
+    # suspension lengths seen (for the non-trivial rule)
+    sus_start = {}
+    short = False
+    for tr in rec.ticks:
+        for cid, pool in tr.sus:
+            sus_start[cid] = tr.t
+        if tr.post_exec:
+            for p in tr.post_exec.pools:
+                for cid in p.suspended:
+                    if cid in sus_start:
+                        if tr.t - sus_start.pop(cid) + 1 < 3:
+                            short = True
+    info["short_suspension"] = short
